@@ -208,6 +208,7 @@ def run_channel(prop, ch, tier, seed):
     diffs = []
     hint_reqs = []
     ndiff = 0
+    abn = []
     with open(req) as fr, open(go_out) as fg, open(lean_out) as fl:
         for rq in fr:
             g = fg.readline()
@@ -215,6 +216,8 @@ def run_channel(prop, ch, tier, seed):
             n += 1
             if g != l:
                 ndiff += 1
+                if (g.startswith("ABNORMAL did not return") or g.startswith("ABNORMAL not run")) and len(abn) < 5000:
+                    abn.append((n, rq, l))
                 if len(diffs) < 25:
                     diffs.append({"index": n, "request": rq.strip()[:4000], "go": g.strip()[:2000], "lean": l.strip()[:2000]})
                 if len(hint_reqs) < 3000 and len(rq) < 2000:
@@ -223,6 +226,28 @@ def run_channel(prop, ch, tier, seed):
         if extra:
             ndiff += 1
             diffs.append({"index": n + 1, "request": "(length mismatch)", "go": "", "lean": ""})
+    # A Go answer "ABNORMAL did not return within …" / "ABNORMAL not run: …" is the server's wall-clock guard.  On a machine that
+    # stalls (memory pressure, a paused VM) the guard can fire on a request that takes microseconds, and after three overruns the
+    # server stops answering.  Before such an answer counts as a disagreement the request is re-run ALONE in a fresh server: a real
+    # hang hangs again (and is reported with that answer); a stall does not.  (Found by a thorough-tier run of C05 on the unchanged
+    # tree while another job exhausted the machine's memory.)
+    if abn:
+        try:
+            r2 = subprocess.run([MFH, "serve"], input="".join(rq for _, rq, _ in abn), stdout=subprocess.PIPE, stderr=subprocess.PIPE,
+                                env=GOENV, text=True, timeout=1800)
+            again = r2.stdout.split("\n") if r2.returncode == 0 else []
+        except subprocess.TimeoutExpired:
+            again = []
+        for k, (idx, rq, l) in enumerate(abn):
+            if k < len(again) and again[k] + "\n" == l:
+                ndiff -= 1
+                diffs = [d for d in diffs if d["index"] != idx]
+                if rq.strip() in hint_reqs:
+                    hint_reqs.remove(rq.strip())
+            elif k < len(again):
+                for d in diffs:
+                    if d["index"] == idx:
+                        d["go"] = again[k].strip()[:2000]
     return {"channel": ch, "requests": n, "disagreements": ndiff, "diffs": diffs, "hint_requests": hint_reqs}
 
 
